@@ -479,12 +479,21 @@ func runCase(t *testing.T, c Case) (v *verdict, nontrivial bool, labels []string
 					return
 				}
 			}
-			if states[0].clean {
-				lab["leak-checked"] = true
-				if n, st := bubbleGoroutines(); n > 1 {
-					v = &verdict{"C07/no-goroutine-left", fmt.Sprintf("%d goroutines of the system remain after a clean stop:\n%s", n-1, st)}
-					return
+			// after a clean stop - and after a stop that timed out on a slow actor, once that actor has
+			// finished - nothing of the system is left
+			openGate()
+			vt.Advance(2 * sysStopTimeout)
+			lab["leak-checked"] = true
+			if !states[0].clean {
+				lab["leak-checked-after-timed-out-stop"] = true
+			}
+			if n, st := bubbleGoroutines(); n > 1 {
+				how := "a clean stop"
+				if !states[0].clean {
+					how = "a stop that timed out on a slow actor, after that actor has finished"
 				}
+				v = &verdict{"C07/no-goroutine-left", fmt.Sprintf("%d goroutines of the system remain after %s:\n%s", n-1, how, st)}
+				return
 			}
 		}
 	})
@@ -555,6 +564,19 @@ func TestReplay(t *testing.T) {
 	b, err := os.ReadFile(p)
 	if err != nil {
 		t.Fatal(err)
+	}
+	// a case of the remoting unit
+	var nc NetCase
+	var nhr struct {
+		Case NetCase `json:"case"`
+	}
+	if json.Unmarshal(b, &nc) == nil && nc.How != "" && len(nc.Peers)+1 > 0 && !strings.Contains(string(b), "\"scenario\"") && !strings.Contains(string(b), "\"groups\"") {
+		checkNet(t.Fatalf, nc)
+		return
+	}
+	if json.Unmarshal(b, &nhr) == nil && nhr.Case.How != "" && !strings.Contains(string(b), "\"scenario\"") && !strings.Contains(string(b), "\"groups\"") {
+		checkNet(t.Fatalf, nhr.Case)
+		return
 	}
 	// a case of the tree unit
 	var tc TreeCase
